@@ -10,6 +10,8 @@ open PwVerif PwVerif.Macro PwVerif.Proto
     def <node>                        the top-level macro class (prefix token form, see `pNode`)
     build <n> (<k> <val>)*            instantiate with keyword arguments
     setin <path> <k> <val>            node_at_path.inputs[k].value = val   (`refused` when the chain refuses)
+    replace <path> <j> <g>            child j of the macro at path becomes the term node F_g
+    reload <path>                     the node at path is saved and loaded in place
     lock <path> | unlock <path>       mark the node at path running / not running (inputs locked)
     setout <path> <o> <val>           node_at_path.outputs[o].value = val
     setuiin <path> <k> <val>          UI node k of the macro at path: inputs.user_input.value = val
@@ -288,6 +290,20 @@ def step (s : DS) (ws : List String) : DS × List String :=
         let σ' := (setUiOutAt n σ p k v).1
         ({ s with st := some σ' }, ["st " ++ showSt n σ'])
     | _, _ => (s, ["bad-op"])
+  | ["replace", p, j, g] =>
+    -- child j (a term node) of the macro at path p is replaced by the term node F_g
+    match pPath p, j.toNat?, g.toNat? with
+    | some p, some j, some g =>
+      live s fun n σ =>
+        let n' := replaceAt n p j g
+        let σ' := replaceState n' σ p j
+        ({ s with dfn := some n', st := some σ' }, ["static " ++ showStatic s.cfg n', "st " ++ showSt n' σ'])
+    | _, _, _ => (s, ["bad-op"])
+  | ["reload", p] =>
+    -- the node at path p is saved and loaded in place: same values, same links
+    match pPath p with
+    | some _ => live s fun n σ => (s, ["static " ++ showStatic s.cfg n, "st " ++ showSt n σ])
+    | none => (s, ["bad-op"])
   | ["lock", p] =>
     match pPath p with
     | some p => live s fun _ _ => ({ s with locked := p :: s.locked }, [])
